@@ -125,10 +125,14 @@ class SymSparse(_sps.spmatrix):
         return self.copy()
 
     def tocsr(self, copy=False):
-        return SymSparse(self.A_, "csr", self.M_)
+        if self.format == "csr" and not copy:
+            return self  # like scipy: converting to the current format returns the object itself
+        return SymSparse(self.A_.copy(), "csr", self.M_.copy())
 
     def tocsc(self, copy=False):
-        return SymSparse(self.A_, "csc", self.M_)
+        if self.format == "csc" and not copy:
+            return self
+        return SymSparse(self.A_.copy(), "csc", self.M_.copy())
 
     def tocoo(self, copy=False):
         return SymSparse(self.A_, "coo", self.M_)
